@@ -16,6 +16,13 @@ def run(ctx: Ctx) -> None:
     ctx.floor("T17.values", 2)
     ctx.floor("T10.lame", 8)
     ctx.floor("T17.inverse-consistency", 4)
+    from ..tables import t5_derivs
+    # the regularisers are sums over spatial_derivatives: per-image spacing rows and the spline derivative mode (shared with C12)
+    with ctx.only("T5.batch-spacing"):
+        t5_derivs.run_derivatives(ctx)
+    with ctx.only("T5.bspline"):
+        t5_derivs.run_derivatives(ctx)
+    ctx.floor("T5.batch-spacing", 2)
     from .C16 import FLOW_FUNCS
     e4(ctx, ["deepali.losses.functional", "deepali.losses.flow", "deepali.losses.bspline"],
        only=lambda fi: fi.module.name != "deepali.losses.functional" or fi.qualname.split(".")[0] in FLOW_FUNCS)
